@@ -162,6 +162,7 @@ class Engine(ExprMixin, ExprMixin2, StmtMixin, LoopMixin, CallMixin, CompMixin, 
         res.contract = c
         res.body_hash = self.repo.body_hash(fn)
         self.cur_fn, self.cur_contract = qual, c
+        self.verify_contract = c
         self.loop_ordinals = {id(l): i for i, l in enumerate(self.repo.loops(fn))}
         stale = [k for k in c.loops if k >= len(self.loop_ordinals)]
         if stale:
@@ -231,7 +232,25 @@ class Engine(ExprMixin, ExprMixin2, StmtMixin, LoopMixin, CallMixin, CompMixin, 
             names.append("**" + fn.args.kwarg.arg)
         declared = [p[0] for p in c.params if p[0] != "__closure__"]
         if declared != names:
-            raise SourceError(f"stale contract: {c.qual} parameters are {names} in the source but {declared} in the sidecar")
+            # parameters *added with a default* since the sidecar was written: the contract is kept (its clauses do not mention them)
+            # and they are bound to their defaults / to what callers pass; anything else (renamed, removed, reordered) is stale
+            defaults = {}
+            pos = fn.args.posonlyargs + fn.args.args
+            for a, d in zip(pos[len(pos) - len(fn.args.defaults):], fn.args.defaults):
+                defaults[a.arg] = d
+            for a, d in zip(fn.args.kwonlyargs, fn.args.kw_defaults):
+                if d is not None:
+                    defaults[a.arg] = d
+            extra = [n for n in names if n not in declared]
+            it = iter(names)
+            subseq = all(any(n == d_ for n in it) for d_ in declared)
+            if subseq and extra and all(n in defaults and isinstance(defaults[n], ast.Constant) for n in extra):
+                by_name = {p[0]: p for p in c.params}
+                closure = [p for p in c.params if p[0] == "__closure__"]
+                c.params = closure + [by_name[n] if n in by_name else (n, "val", ast.unparse(defaults[n])) for n in names]
+                self.adapted_signatures = getattr(self, "adapted_signatures", []) + [(c.qual, extra)]
+                return
+            raise Unsupported(f"stale contract: {c.qual} parameters are {names} in the source but {declared} in the sidecar")
 
     def post_obligations(self, c, f, entry, j, is_gen, raised_conds, extra_post):
         ret = f.ret if f.status == "ret" and f.ret is not None else VNONE
@@ -323,6 +342,8 @@ class Engine(ExprMixin, ExprMixin2, StmtMixin, LoopMixin, CallMixin, CompMixin, 
                     goal = z3.BoolVal(False)
                 else:
                     goal = z3.Or(ref >= entry.alloc_ptr(), z3.Implies(z3.Select(entry.comp("list.nodeowned"), ref), z3.Select(own_final, ref)))
+            elif ref is None and getattr(wcond, "fresh_only", False):
+                continue        # a havoc that keeps every object existing at entry touches only this call's own allocations
             elif ref is None:
                 # a wholesale havoc "except cond" (from a callee's frame): allowed when our own frame has the same exception
                 goal = z3.BoolVal(any(a[0] == comp and a[1] is None and a[2] is not None for a in allowed) and wcond is not None)
@@ -337,6 +358,8 @@ class Engine(ExprMixin, ExprMixin2, StmtMixin, LoopMixin, CallMixin, CompMixin, 
         text = text.strip()
         if text.startswith("@") and ":" in text:
             comp, _, flag = text[1:].partition(":")
+            if flag == "fresh":
+                return [(comp, None, lambda r, lo=entry.alloc_ptr(): r < lo)]      # kept at every object that existed at entry
             own = f.comp("list.nodeowned")
             return [(comp, None, lambda r, own=own: z3.Not(z3.Select(own, r)))]     # kept where not node-owned (final flags: monotone)
         if text.startswith("@"):
